@@ -88,11 +88,26 @@ Definition quad_value (q : str) (m : N) : Prop :=
                   q = dots [dec_of_N a; dec_of_N b; dec_of_N c; dec_of_N d] /\
                   m = ((a * 256 + b) * 256 + c) * 256 + d.
 
-(* address text of one family, and its integer value.  For IPv6 the value is the one the model
-   function pton6_value computes (8 sixteen-bit units, "::" expanded with zero units) *)
+(* the eight 16-bit units of an IPv6 text: the groups read as hexadecimal numbers, a dotted quad of
+   value m as the two units m / 65536 and m mod 65536, "::" as the missing zero units *)
+Definition quad_units (m : N) : list N := [m / 65536; m mod 65536].
+Definition ipv6_units (s : str) (us : list N) : Prop :=
+  (exists g, Forall h16 g /\ length g = 8%nat /\ s = colons g /\ us = map hexval g) \/
+  (exists g q m, Forall h16 g /\ length g = 6%nat /\ quad_value q m /\ s = colons (g ++ [q]) /\
+                 us = map hexval g ++ quad_units m) \/
+  (exists l r, Forall h16 l /\ Forall h16 r /\ (length l + length r <= 7)%nat /\
+               s = colons l ++ [58; 58] ++ colons r /\
+               us = map hexval l ++ repeat 0 (8 - length l - length r) ++ map hexval r) \/
+  (exists l r q m, Forall h16 l /\ Forall h16 r /\ quad_value q m /\ (length l + length r <= 5)%nat /\
+                   s = colons l ++ [58; 58] ++ colons (r ++ [q]) /\
+                   us = map hexval l ++ repeat 0 (6 - length l - length r) ++ map hexval r ++ quad_units m).
+Definition units_to_N (us : list N) : N := fold_left (fun acc u => acc * 65536 + u) us 0.
+Definition ipv6_value (s : str) (m : N) : Prop := exists us, ipv6_units s us /\ m = units_to_N us.
+
+(* address text of one family, and its integer value *)
 Definition addr_text (v6 : bool) (s : str) : Prop := if v6 then ipv6_text s else dotted_quad s.
 Definition addr_value (v6 : bool) (s : str) (m : N) : Prop :=
-  if v6 then pton6_value s = Some m else quad_value s m.
+  if v6 then ipv6_value s m else quad_value s m.
 (* what may follow the '/': an integer literal as int() reads it, in 0..width; or, when int()
    refuses the text, an address of the same family whose value is a netmask or a hostmask *)
 Definition prefix_text (v6 : bool) (p : str) : Prop :=
